@@ -365,6 +365,22 @@ def r6(F, R):
                     R.bad("C05-R6", key, site, "options copy overrides %s, expected only check_turning" % fields)
                 else:
                     R.ok("C05-R6", key, site, "NutsOptions { check_turning, ..*%s }" % params[bid])
+    if found == 0:
+        # no copy at all: then every extend() must simply receive the caller's own options
+        for b in F.bodies.values():
+            if b.kind == "closure" or b.fn_name == "extend":
+                continue
+            for n, (bb, t) in enumerate(b.calls_to(lambda c: path_ends(c["path"], "NutsTree::extend"))):
+                oargs = [a for a in t["args"] if a["k"] in ("copy", "move") and path_ends(a["pl"]["ty"].replace("&", "").strip(), "NutsOptions")]
+                key = "%s:options-arg#%d" % (b.path, n)
+                site = "%s @%s" % (b.path, loc(t["span"]))
+                v = b.value(oargs[0]) if len(oargs) == 1 else None
+                while v is not None and v[0] in ("ref", "deref"):
+                    v = v[1]
+                if v is not None and v[0] == "arg":
+                    R.ok("C05-R6", key, site, "no options copy: extend() receives the caller's options (%s)" % v[2])
+                else:
+                    R.bad("C05-R6", key, site, "extend() receives %s, neither the caller's options nor a copy inheriting from them" % (vt_str(v) if v else None))
     R.floor("C05-R6", 1)
 
 
